@@ -26,6 +26,10 @@ type variant07 struct {
 	third    bool // member C joins once B owns something and stays
 	early    bool // B's leave is enabled as soon as B's client exists (leave may land inside the join rebalance)
 	useClose bool // B leaves with Close instead of LeaveGroup
+	// A.AddConsumeTopics("t2") while A is INSIDE the OnPartitionsRevoked that
+	// gives partitions up for B (the callback outlasts a heartbeat): the
+	// subscription of the revoking member changes in the revoke window; B stays
+	subInRevoke bool
 }
 
 const (
@@ -37,17 +41,16 @@ func scenario07(v variant07) *netctl.Scenario {
 	return &netctl.Scenario{
 		Name:    v.name,
 		Faults:  nil,
-		Done:    func(x *netctl.Exec) bool { return x.Data.(*G).Done(x) },
 		Horizon: 6 * time.Minute,
 		Setup: func(x *netctl.Exec) {
 			topics := map[string]int32{"t": 3}
-			if v.addTopic {
+			if v.addTopic || v.subInRevoke {
 				topics["t2"] = 2
 			}
 			g := New(x, v.proto, topics)
 			g.RevokeWork = 1300 * time.Millisecond // longer than a heartbeat interval
 			x.Data = g
-			stays := v.addTopic || v.addParts
+			stays := v.addTopic || v.addParts || v.subInRevoke
 			owns := func(m string, n int) func() bool { return func() bool { return len(g.Owned(m)) >= n } }
 
 			g.Thread("A", func(t *netctl.Thread) {
@@ -116,6 +119,18 @@ func scenario07(v variant07) *netctl.Scenario {
 					g.Sleep(271 * time.Millisecond)
 					c := g.Join("C", true, []string{"t"}, kgo.DisableAutoCommit())
 					g.PollOnce("C", c, 10, pollWait07)
+				})
+			}
+			if v.subInRevoke {
+				g.Thread("S", func(t *netctl.Thread) {
+					// Plain channel wait, then the step: in the DEFAULT schedule the
+					// call lands while A's revoke callback is still running.
+					if !g.WaitUntil(gateLimit07, func() bool { return g.Client("B") != nil && g.InRevoke("A") }) {
+						return
+					}
+					g.Step(t, "A-add-topic-t2")
+					g.Client("A").AddConsumeTopics("t2")
+					g.Subscribe("A", "t2")
 				})
 			}
 			if v.addParts {
@@ -192,6 +207,10 @@ var plansC07 = []nrun.Plan{
 	{Scenario: scenario07(variant07{name: "G-eager-parts", proto: Eager, addParts: true}), QuickBudget: 1, ThoroughBudget: 2, Weight: 1},
 	{Scenario: scenario07(variant07{name: "G-coop-parts", proto: Coop, addParts: true}), QuickBudget: 1, ThoroughBudget: 2, Weight: 1},
 	{Scenario: scenario07(variant07{name: "G-848-parts", proto: Next, addParts: true}), QuickBudget: 1, ThoroughBudget: 2, Weight: 1},
+	// Subscription change of the revoking member inside its revoke callback.
+	{Scenario: scenario07(variant07{name: "G-848-sub-in-revoke", proto: Next, subInRevoke: true}), QuickBudget: 1, ThoroughBudget: 3, Weight: 2},
+	{Scenario: scenario07(variant07{name: "G-coop-sub-in-revoke", proto: Coop, subInRevoke: true}), QuickBudget: 1, ThoroughBudget: 2, Weight: 1},
+	{Scenario: scenario07(variant07{name: "G-eager-sub-in-revoke", proto: Eager, subInRevoke: true}), QuickBudget: 1, ThoroughBudget: 2, Weight: 1},
 	// Third member: default schedule only in the quick tier, k=2 thorough.
 	{Scenario: scenario07(variant07{name: "G-eager-3", proto: Eager, third: true}), QuickBudget: 0, ThoroughBudget: 2, Weight: 2},
 	{Scenario: scenario07(variant07{name: "G-coop-3", proto: Coop, third: true, useClose: true}), QuickBudget: 0, ThoroughBudget: 2, Weight: 2},
@@ -205,7 +224,7 @@ func CheckC07() *nrun.Check {
 		QuickTime: 120 * time.Second, ThorTime: 18 * time.Minute,
 		Rule: strings.Join([]string{
 			"engine N, scenario family G: members A, B (C) of group g over topic t (3 partitions) as separate real kgo clients against kfake, one scenario per protocol (eager/range, cooperative-sticky, KIP-848)",
-			"script: A joins and owns t; B joins; A polls; B leaves (LeaveGroup or Close); A polls until it owns t again; variants: B AddConsumeTopics(t2), a partition added to t, B leaving inside the join rebalance, a third member",
+			"script: A joins and owns t; B joins; A polls; B leaves (LeaveGroup or Close); A polls until it owns t again; variants: B AddConsumeTopics(t2), A AddConsumeTopics(t2) while inside its revoke callback, a partition added to t, B leaving inside the join rebalance, a third member",
 			"explored: every order of request/response frame deliveries across the members' connections, application calls and timer ticks within k deviations of the default order (no faults: graceful behaviour only)",
 			"distinct = distinct callback sequences (member, START/END, callback kind, number of partitions) per scenario",
 		}, "; "),
@@ -214,7 +233,7 @@ func CheckC07() *nrun.Check {
 			"synctests build of xsync",
 			"ticks are harmless: session, rebalance and request timeouts are 5 virtual minutes, a tick lasts at most one",
 			"a revoke/lost callback that names at least one partition takes 1.3 virtual s between its START and END stamps (the application finishing its work)",
-			"members heartbeat with distinct periods (1.0/1.13/1.27 s) and frames that reach the proxy between the same two decision points are ordered by connection name (tied timers and kfake's map-order JoinGroup/SyncGroup replies are not functions of the choice sequence)",
+			"members heartbeat with distinct periods (1.0/1.13/1.27 s) so that their timers do not tie for ever after a common rebalance",
 			"goroutine micro-interleavings inside one event are the Go runtime's",
 		},
 	}
